@@ -297,3 +297,35 @@ def single_def_value(func, name):
     if len(ds) == 1:
         return ds[0].value
     return None
+
+
+def establishes_empty(fact, var):
+    """Does this branch fact establish that local `var` (bytes/str/list) is
+    empty?  Recognised: not var / not len(var) / len(var) == 0 / len(var) < 1 /
+    var == b"" and their negated-polarity duals."""
+    e, pol = fact_atom(fact)
+
+    def is_var(x):
+        return isinstance(x, ast.Name) and x.id == var
+
+    def is_len(x):
+        return isinstance(x, ast.Call) and isinstance(x.func, ast.Name) and x.func.id == "len" and len(x.args) == 1 \
+            and is_var(x.args[0])
+
+    if is_var(e) or is_len(e):
+        return pol is False
+    cp = cmp_parts(e)
+    if cp:
+        a, op, b = cp
+        if is_len(a) and isinstance(b, ast.Constant) and isinstance(b.value, int):
+            k = b.value
+            if (op == "Eq" and k == 0) or (op == "Lt" and k == 1) or (op == "LtE" and k == 0):
+                return pol is True
+            if (op == "NotEq" and k == 0) or (op == "Gt" and k == 0) or (op == "GtE" and k == 1):
+                return pol is False
+        if is_var(a) and isinstance(b, ast.Constant) and b.value in (b"", ""):
+            if op == "Eq":
+                return pol is True
+            if op == "NotEq":
+                return pol is False
+    return False
